@@ -1,4 +1,5 @@
 import CorsVerif.Proofs.Accepted
+import CorsVerif.Proofs.Translated
 /-
   C08 — A rejected Reconfigure leaves the middleware exactly as it was.
 
@@ -42,5 +43,17 @@ example (ext : Ext) : ∃ e, newInternalConfig ext {} = .error e := ⟨_, rfl⟩
 #print axioms C08
 #print axioms C08_error_iff
 #print axioms C08_obs
+
+
+/-- **C08 (translated state writers).** `(*Middleware).Reconfigure` and `(*Middleware).SetDebug` — the only writers of the
+configuration pointer and of the debug flag (`C07_only_these`) — are translated from /repo's middleware.go on every run (lock
+calls skipped: the lock programs are C07's facts) and, as functions on the model's state, are `Mw.reconfigure` and
+`Mw.setDebug`, the transitions every theorem about histories in this development speaks about: the error is returned before
+anything is written, the pointer is replaced, `debug = cfg != nil && debug`, `debug = b && icfg != nil`. -/
+theorem C08_state_translated (ext : Ext) (m : Mw) (cfg : Option Config) (b : Bool) :
+    Gen.GoSrc.reconfigure ext m cfg = Mw.reconfigure ext m cfg ∧ Gen.GoSrc.setDebug m b = Mw.setDebug m b :=
+  ⟨Translated.reconfigure_eq ext m cfg, Translated.setDebug_eq m b⟩
+
+#print axioms C08_state_translated
 
 end Cors
